@@ -102,6 +102,8 @@ type World struct {
 	Entities []*EntityKeys
 	Users    []signature.Signer
 	Runtime  *registry.Runtime // optional compute runtime
+	// RtThresholdsChanged: a generated runtime update changed the runtime's per-node stake thresholds and succeeded.
+	RtThresholdsChanged bool
 }
 
 // Spec holds the drawn genesis parameters (plain data so that it can be logged).
